@@ -12,7 +12,10 @@
 \*                   S2/S3 that exist in the code between pop / decide and lock)
 EXTENDS Integers, FiniteSets, Sequences, TLC
 
-CONSTANTS NTasks, MaxT, MD, MaxCalls, DueCheck, AtomicHandlers
+CONSTANTS NTasks, MaxT, MD, MaxCalls, DueCheck, AtomicHandlers,
+          Fault   \* "none", or a plausible regression whose counterexamples become adversarial scripts:
+                  \* "cancelctx" (the start check trusts the task context, which is refreshed after a run, instead of the
+                  \* canceled flag), "overtimenodue" (the due re-check guards only the promote branch)
 Tasks == 1..NTasks
 None == 0
 
@@ -28,12 +31,15 @@ Init ==
            qe |-> AllF(FALSE), pe |-> AllF(FALSE), se |-> AllF(FALSE),          \* element pointers non-nil
            canceled |-> AllF(FALSE), executing |-> AllF(FALSE), overtime |-> AllF(FALSE),
            execAt |-> AllF(0), running |-> AllF(FALSE), slot |-> AllF(FALSE),
-           qh |-> "idle", qt |-> None, sh |-> "wait", st |-> None, signal |-> FALSE, calls |-> 0,
+           qh |-> "idle", qt |-> None, sh |-> "arm", st |-> None, signal |-> FALSE, calls |-> 0,
            \* ghost variables for the properties
            subKind |-> AllF("none"),      \* what the task is waiting for: none | queued | sched
            schedAt |-> AllF(0),           \* time requested by the last Schedule call
            subAfter |-> AllF(FALSE),      \* a submission happened after the current run was launched
-           early |-> FALSE, overlap |-> FALSE, lost |-> FALSE, startedCanceled |-> FALSE ]
+           early |-> FALSE, overlap |-> FALSE, lost |-> FALSE, startedCanceled |-> FALSE, earlyOT |-> FALSE,
+           armed |-> -1,                  \* time the schedule handler's timer is armed for (-1: waits for a notification)
+           notif |-> FALSE,               \* notifyTaskScheduler (addToSchedule notifies, removeFromQueues does not)
+           ctxc |-> AllF(FALSE) ]         \* the task context is cancelled (refreshed after every run)
   /\ last = Lbl("init", 0, "-", 0)
 
 Remove(q, t) == SelectSeq(q, LAMBDA x : x # t)
@@ -46,7 +52,7 @@ Ins(q, t, ea) == IF q = <<>> THEN <<t>>
 \* ------------------------------------------------------------------ API calls (t.lock held for the whole call)
 \* prepForQueueing: executeAt = now + maxDelay, addToSchedule(overtime = TRUE)
 Prep(r, t) == LET ea == [r.execAt EXCEPT ![t] = r.now + MD] IN
-    [r EXCEPT !.execAt = ea, !.overtime[t] = TRUE, !.sched = Ins(Remove(r.sched, t), t, ea), !.se[t] = TRUE]
+    [r EXCEPT !.execAt = ea, !.overtime[t] = TRUE, !.sched = Ins(Remove(r.sched, t), t, ea), !.se[t] = TRUE, !.notif = TRUE]
 
 Submit(r, t, kind) ==
     LET r1 == Prep(r, t)
@@ -66,7 +72,7 @@ ApiSubmit(t, kind) ==
 ApiSchedule(t, at) ==
     /\ s.calls < MaxCalls /\ ~s.canceled[t] /\ at > s.now /\ at <= MaxT
     /\ LET ea == [s.execAt EXCEPT ![t] = at] IN
-       s' = [s EXCEPT !.calls = @ + 1, !.execAt = ea, !.sched = Ins(Remove(s.sched, t), t, ea), !.se[t] = TRUE,
+       s' = [s EXCEPT !.calls = @ + 1, !.execAt = ea, !.sched = Ins(Remove(s.sched, t), t, ea), !.se[t] = TRUE, !.notif = TRUE,
                       !.subKind[t] = IF s.subKind[t] = "queued" THEN "queued" ELSE "sched",
                       !.schedAt[t] = at, !.subAfter[t] = s.running[t]]
     /\ last' = Lbl("api", t, "schedule", at)
@@ -75,8 +81,17 @@ ApiCancel(t) ==
     /\ s.calls < MaxCalls /\ ~s.canceled[t]
     /\ s' = [s EXCEPT !.calls = @ + 1, !.canceled[t] = TRUE,
                       !.slot[t] = FALSE,          \* the task context is cancelled: the slot waiter lets go
-                      !.subKind[t] = "none"]
+                      !.subKind[t] = "none", !.ctxc[t] = TRUE]
     /\ last' = Lbl("api", t, "cancel", 0)
+
+\* Schedule(zero time): removes the task from all lists (no notification of the schedule handler)
+ApiUnschedule(t) ==
+    /\ s.calls < MaxCalls /\ s.se[t]
+    /\ s' = [s EXCEPT !.calls = @ + 1,
+                      !.queue = IF s.qe[t] THEN Remove(@, t) ELSE @, !.prio = IF s.pe[t] THEN Remove(@, t) ELSE @,
+                      !.sched = Remove(@, t), !.overtime[t] = FALSE,
+                      !.qe[t] = FALSE, !.pe[t] = FALSE, !.se[t] = FALSE, !.subKind[t] = "none"]
+    /\ last' = Lbl("api", t, "unschedule", 0)
 
 Tick == /\ s.now < MaxT /\ s' = [s EXCEPT !.now = @ + 1] /\ last' = Lbl("tick", 0, "-", 0)
 
@@ -91,9 +106,9 @@ RWL(r, t) ==
     IN IF r.executing[t]
        THEN [go |-> FALSE, r |-> [r1 EXCEPT !.lost = @ \/ (r.subAfter[t] /\ ~r.canceled[t] /\ r.subKind[t] # "none"),
                                             !.subKind[t] = IF r.canceled[t] THEN @ ELSE "none"]]
-       ELSE IF r.canceled[t]
+       ELSE IF (IF Fault = "cancelctx" THEN r.ctxc[t] ELSE r.canceled[t])
        THEN [go |-> FALSE, r |-> r1]
-       ELSE [go |-> TRUE, r |-> [r1 EXCEPT !.executing[t] = TRUE,
+       ELSE [go |-> TRUE, r |-> [r1 EXCEPT !.executing[t] = TRUE, !.startedCanceled = @ \/ r.canceled[t],
                                            !.early = @ \/ (r.subKind[t] = "sched" /\ r.now < r.schedAt[t]),
                                            !.subKind[t] = "none", !.subAfter[t] = FALSE]]
 
@@ -114,36 +129,45 @@ QRwl == /\ s.qh = "rwl"
 QLaunch == /\ s.qh = "launch" /\ s' = [Launch(s, s.qt) EXCEPT !.qh = "wgwait"] /\ last' = Lbl("qh", s.qt, "launch", 0)
 
 \* ------------------------------------------------------------------ schedule handler
-SFire == /\ s.sh = "wait" /\ s.sched # <<>> /\ s.execAt[Head(s.sched)] <= s.now
+\* the handler (re)arms its timer for the current front of the schedule, or waits for a notification
+SArm == /\ s.sh = "arm"
+        /\ s' = [s EXCEPT !.sh = "wait", !.notif = FALSE,
+                          !.armed = IF s.sched = <<>> THEN -1 ELSE s.execAt[Head(s.sched)]]
+        /\ last' = Lbl("sh", 0, "arm", 0)
+SNotified == /\ s.sh = "wait" /\ s.notif /\ s' = [s EXCEPT !.sh = "arm"] /\ last' = Lbl("sh", 0, "notified", 0)
+SFire == /\ s.sh = "wait" /\ s.armed >= 0 /\ s.armed <= s.now
          /\ s' = [s EXCEPT !.sh = "fired"] /\ last' = Lbl("sh", 0, "fire", 0)
 SFront == /\ s.sh = "fired"
-          /\ s' = IF s.sched = <<>> \/ (DueCheck /\ s.execAt[Head(s.sched)] > s.now)
-                  THEN [s EXCEPT !.sh = "wait"]
+          /\ s' = IF s.sched = <<>> \/ (DueCheck /\ s.execAt[Head(s.sched)] > s.now
+                                         /\ ~(Fault = "overtimenodue" /\ s.overtime[Head(s.sched)]))
+                  THEN [s EXCEPT !.sh = "arm"]
                   ELSE LET t == Head(s.sched) IN
                        \* acting on an entry that is not due: an only-scheduled task is promoted before its time
                        LET e == s.early \/ (s.subKind[t] = "sched" /\ s.execAt[t] > s.now) IN
-                       IF s.overtime[t] THEN [s EXCEPT !.st = t, !.overtime[t] = FALSE, !.sh = "rwl", !.early = e]
+                       \* running a queued task directly although its max delay has not expired
+                       IF s.overtime[t] THEN [s EXCEPT !.st = t, !.overtime[t] = FALSE, !.sh = "rwl", !.early = e,
+                                                      !.earlyOT = @ \/ (s.execAt[t] > s.now)]
                                         ELSE [s EXCEPT !.st = t, !.overtime[t] = TRUE, !.sh = "asap", !.early = e]
           /\ last' = Lbl("sh", 0, "front", 0)
 \* t.StartASAP() from the schedule handler (takes t.lock: checks isActive)
 SAsap == /\ s.sh = "asap"
-         /\ s' = IF s.canceled[s.st] THEN [s EXCEPT !.sh = "wait"]
-                 ELSE [Submit(s, s.st, "asap") EXCEPT !.sh = "wait",
+         /\ s' = IF s.canceled[s.st] THEN [s EXCEPT !.sh = "arm"]
+                 ELSE [Submit(s, s.st, "asap") EXCEPT !.sh = "arm",
                           \* its scheduled time has come: from now on it waits in the queue like a queued task
                           !.subKind[s.st] = IF s.subKind[s.st] = "none" THEN "none" ELSE "queued"]
          /\ last' = Lbl("sh", s.st, "asap", 0)
 SRwl == /\ s.sh = "rwl"
-        /\ LET x == RWL(s, s.st) IN s' = [x.r EXCEPT !.sh = IF x.go THEN "launch" ELSE "wait"]
+        /\ LET x == RWL(s, s.st) IN s' = [x.r EXCEPT !.sh = IF x.go THEN "launch" ELSE "arm"]
         /\ last' = Lbl("sh", s.st, "rwl", 0)
-SLaunch == /\ s.sh = "launch" /\ s' = [Launch(s, s.st) EXCEPT !.sh = "wait"] /\ last' = Lbl("sh", s.st, "launch", 0)
+SLaunch == /\ s.sh = "launch" /\ s' = [Launch(s, s.st) EXCEPT !.sh = "arm"] /\ last' = Lbl("sh", s.st, "launch", 0)
 
 \* ------------------------------------------------------------------ the task function returns (deferred part of executeWithLocking)
 End(t) == /\ s.running[t]
-          /\ s' = [s EXCEPT !.running[t] = FALSE, !.executing[t] = FALSE, !.slot[t] = FALSE]
+          /\ s' = [s EXCEPT !.running[t] = FALSE, !.executing[t] = FALSE, !.slot[t] = FALSE, !.ctxc[t] = FALSE]
           /\ last' = Lbl("end", t, "-", 0)
 
-Env == \/ Tick \/ QWake \/ QLaunch \/ SLaunch
-       \/ \E t \in Tasks : End(t) \/ ApiCancel(t)
+Env == \/ Tick \/ QWake \/ QLaunch \/ SLaunch \/ SArm \/ SNotified
+       \/ \E t \in Tasks : End(t) \/ ApiCancel(t) \/ ApiUnschedule(t)
        \/ \E t \in Tasks, k \in {"queue", "prio", "asap"} : ApiSubmit(t, k)
        \/ \E t \in Tasks, at \in 1..MaxT : ApiSchedule(t, at)
 UrgentQ == s.qh = "rwl"
@@ -158,7 +182,9 @@ Spec == Init /\ [][Next]_vars
 NoSelfOverlap == ~s.overlap
 NoEarlyStart  == ~s.early
 NoLostSubmission == ~s.lost
-Quiescent == /\ s.qh = "idle" /\ ~s.signal /\ s.sh = "wait" /\ \A t \in Tasks : ~s.running[t]
+NoStartAfterCancel == ~s.startedCanceled
+NoEarlyOvertime == ~s.earlyOT
+Quiescent == /\ s.qh = "idle" /\ ~s.signal /\ s.sh = "wait" /\ ~s.notif /\ \A t \in Tasks : ~s.running[t]
              /\ s.now = MaxT /\ (s.sched = <<>> \/ s.execAt[Head(s.sched)] > s.now)
 \* at quiescence nothing that was submitted and not cancelled is forgotten: it is still in the schedule for later
 NothingLost == Quiescent => \A t \in Tasks : (s.subKind[t] # "none" /\ ~s.canceled[t]) => (s.se[t] /\ s.execAt[t] > s.now)
